@@ -12,6 +12,12 @@ structure DSt where
 def crashFail (op got : String) : List SpecFail :=
   if isCrash got || got.startsWith "HANG" then [⟨"live", (op.splitOn " ").head!, s!"the daemon died or hung: {got}"⟩] else []
 
+/-- a faces/query dataset is judged against its filter -/
+def queryOutcome (p : Params) (o : Outcome) : Outcome :=
+  match o, p with
+  | .dataset pf "faces/query" v (.faces fs), .filter q => .dataset pf "faces/query" v (.query q fs)
+  | o, _ => o
+
 def stepC17 (s : DSt) (op : String) (got : String) : StepResult DSt :=
   let f := op.splitOn " "
   let gtoks := got.splitOn " "
@@ -29,16 +35,19 @@ def stepC17 (s : DSt) (op : String) (got : String) : StepResult DSt :=
       let d := (tokenVal gtoks "d").bind (·.toNat?)
       let routed := d.getD 0 > 0
       let ext : Ext := match gotTables with
-        | some t => ⟨t.fib, t.rib⟩
-        | none => ⟨s.st.fib, s.st.rib⟩
+        | some t => ⟨t.fib⟩
+        | none => ⟨s.st.fib⟩
       let guard := fwGuard s.st c.face c.name
       let (st', r) := sysStep s.st ext routed c.face c.name c.params
       let dTxt := if guard then toString (d.getD 0) else "0"
+      let unmodelled := match verbOf c.name, c.params with
+        | some .faceCreate, .args a => (match a.uri with | some u => (uriClass u).isNone | none => false)
+        | _, _ => false
       let expected := s!"d={dTxt} r={respText r} {tablesText (tablesOf st')}"
       -- specification on the implementation's own outputs
       let spec : List SpecFail :=
         crashFail op got ++
-        (match s.prev, gotTables, (tokenVal gtoks "r").bind parseOutcome with
+        (match s.prev, gotTables, ((tokenVal gtoks "r").bind parseOutcome).map (queryOutcome c.params) with
          | some before, some after, some out =>
            let o : Obs := { lh := s.lh, face := c.face, name := c.name, params := c.params, routed := routed,
                             before := before, out := out, after := after }
@@ -47,7 +56,7 @@ def stepC17 (s : DSt) (op : String) (got : String) : StepResult DSt :=
       let codeTag := match r with
         | .none => "none" | .ctrl cde _ => toString cde | .dataset _ _ _ _ => "dataset" | .panic _ => "panic"
       let pfxTag := if lhPrefix.isPrefixOf c.name then "lh" else if lpPrefix.isPrefixOf c.name then "lp" else "other"
-      { st := { s with st := st', prev := gotTables <|> s.prev }, expected := some expected, spec := spec,
+      { st := { s with st := st', prev := gotTables <|> s.prev }, expected := (if unmodelled then none else some expected), spec := spec,
         cov := [s!"{c.key}:{codeTag}", s!"arrive:{pfxTag}:{if guard then "pass" else "scope-drop"}:{if routed then "routed" else "unrouted"}"],
         nontrivial := (match r with | .ctrl 200 _ => true | .dataset _ _ _ _ => true | _ => false) }
   | ["send", face, size] =>
